@@ -579,7 +579,7 @@ PROPS["C07"] = {
 }
 PROPS["C08"] = {
     "props": "Failsafe.Props.C08", "ties": [], "kernels": [],
-    "facts": ["rootHasCancelFunc", "locks/execution.Cancel", "locks/execution.InitializeRetry", "locks/execution.RecordResult", "locks/execution.IsCanceledWithResult",
+    "facts": ["rootHasCancelFunc", "bulkheadWaitReportsCancelResult", "limiterWaitReportsLastError", "bodies/bulkheadexecutor:executor.PreExecute", "locks/execution.Cancel", "locks/execution.InitializeRetry", "locks/execution.RecordResult", "locks/execution.IsCanceledWithResult",
               "bodies/execution:execution.Cancel", "bodies/execution:execution.InitializeRetry", "bodies/execution:execution.RecordResult",
               "bodies/execution:execution.isCanceledWithResult", "bodies/result:executionResult.Cancel", "bodies/executor:executor.executeAsync",
               "selects/retry.Apply", "selects/ratelimiter.acquirePermitsWithMaxWait", "selects/bulkhead.AcquirePermitWithMaxWait",
@@ -587,7 +587,9 @@ PROPS["C08"] = {
     "required_theorems": ["Failsafe.Props.C08.cancel_result_is_cause", "Failsafe.Props.C08.waits_wake_on_cancel",
                           "Failsafe.Props.C08.closed_ctx", "Failsafe.Props.C08.closed_timeout", "Failsafe.Props.C08.closed_async",
                           "Failsafe.Props.C08.cancelRes_is_cause", "Failsafe.Props.C08.retry_stops_when_cancelled",
-                          "Failsafe.Props.C08.retry_cancelled_during_delay", "Failsafe.Props.C08.trigger_ext"],
+                          "Failsafe.Props.C08.retry_cancelled_during_delay", "Failsafe.Props.C08.trigger_ext",
+                          "Failsafe.Props.C08.bulkhead_wait_reports_cause", "Failsafe.Props.C08.limiter_wait_reports_cause",
+                          "Failsafe.Props.C08.wait_other_ends", "Failsafe.Props.C08.wait_misattribution_witness_previous_shape"],
     "diff": [COMPOSE_DIFF],
     "rule": COMPOSE_RULE + "; a quarter of the runs without blocking outcomes carry a scripted cancellation point: the harness cancels the execution (through its context, or through ExecutionResult.Cancel for async runs) from inside the k-th function invocation, from inside the k-th OnRetryScheduled listener, or before it starts, and the model predicts result, error, events, statistics and world exactly. STRESS cancel: 13 stacks (retry; fallback>retry; retry>breaker; retry>hedge; fallback>retry>hedge; retry>rate limiter waiting; retry>full bulkhead waiting; waiting rate limiter>retry; full bulkhead>retry; hedge; hedge>retry; full bulkhead>hedge; fallback>hedge - the stacks without a retry policy with attempts that only return once cancelled) x 4 sources (context cancel, context deadline, async Cancel, enclosing Timeout) x cancellation instant drawn over 0-1.5 ms (before the first attempt, inside the function, between attempts, during a policy's wait); monitors: error identifies the cause, enclosed fallback never applied, completes within 400 ms (the waits it must not sit out are 1 s long), at most one attempt starts after the cancellation",
     "runners": [stress_runner("cancel", "a cancelled execution reported an error other than its cause, or applied a fallback enclosed by the cancellation, or kept running attempts / waiting after the cancellation")],
@@ -595,7 +597,7 @@ PROPS["C08"] = {
     "modelled": ["context propagation to child contexts, the mutex and channel close are modelled", "hedge/bulkhead/limiter waits are covered by FACTS (every wait has a cancellation branch) and the stress run",
                  "in the sequential model a pre-cancelled context is not combined with bulkhead / rate limiter / hedge (their selects race an already-cancelled context)"],
     "manifest": {
-        "text": "Lean 4 theorems over the sequential composition model with external cancellation (Run.ext: cause; scripted cancellation points), each for an arbitrary inner layer: the result a cancelled execution reports carries its cause (or timeout.ErrExceeded when its Timeout fired first), is final and never a success; when what the retry policy wraps returns and the execution is cancelled the policy returns that result at once, whatever budget is left (no further attempt); a retry scheduled when the execution is cancelled during its delay is never started and the delay is not waited out; a cancelled fallback produces no output (C10). And Lean 4 theorems over a finite interleaving model of one cancellation source (context, Timeout, async Cancel) racing the retry loop with the shared cancel-result cell, decided in the kernel for every interleaving, with the source fact rootHasCancelFunc (extracted from executeAsync) as a model input: whenever the loop returns because of the cancellation the error identifies the cause, and no attempt starts once the context is done; a delay wait is left at once when the context is done; the previous (defective) shape is kept as a witness theorem. Fallback-under-cancel is C10. Tie: FACTS (lock regions, bodies of Cancel/InitializeRetry/RecordResult/isCanceledWithResult, every wait has a cancellation branch), DIFF of random stacks with deterministic cancellation points against the model, STRESS over stacks x sources x instants.",
+        "text": "Lean 4 theorems over the sequential composition model with external cancellation (Run.ext: cause; scripted cancellation points), each for an arbitrary inner layer: the result a cancelled execution reports carries its cause (or timeout.ErrExceeded when its Timeout fired first), is final and never a success; when what the retry policy wraps returns and the execution is cancelled the policy returns that result at once, whatever budget is left (no further attempt); a retry scheduled when the execution is cancelled during its delay is never started and the delay is not waited out; a cancelled fallback produces no output (C10); a wait of a bulkhead or rate limiter that ends because the execution was cancelled reports the execution's cancel result, not the wait's bare context error (shape inputs extracted from the two executors on every run; the previous, defective shape of the bulkhead executor - D12 - is kept as a witness theorem). And Lean 4 theorems over a finite interleaving model of one cancellation source (context, Timeout, async Cancel) racing the retry loop with the shared cancel-result cell, decided in the kernel for every interleaving, with the source fact rootHasCancelFunc (extracted from executeAsync) as a model input: whenever the loop returns because of the cancellation the error identifies the cause, and no attempt starts once the context is done; a delay wait is left at once when the context is done; the previous (defective) shape is kept as a witness theorem. Fallback-under-cancel is C10. Tie: FACTS (lock regions, bodies of Cancel/InitializeRetry/RecordResult/isCanceledWithResult, every wait has a cancellation branch), DIFF of random stacks with deterministic cancellation points against the model, STRESS over stacks x sources x instants.",
         "note": "Trusted: Lean kernel; fact extractor; monitors; context semantics. Partial: scheduler sampled.",
         "technique": "Lean 4 proof (per-layer theorems over the composition model with external cancellation; finite interleaving model with a source fact as input, decided in the kernel) + structural facts + differential correspondence with scripted cancellation points + stress monitors"},
 }
